@@ -81,7 +81,7 @@ impl FuzzCase for c12::C12 {
             // half of the queries are features of the scene
             let pool: Vec<_> = s.a.coords().into_iter().chain(s.partners.iter().flat_map(|p| p.coords())).collect();
             let queries = queries.iter().enumerate().map(|(i, q)| if i % 2 == 0 && !pool.is_empty() { pool[(q.0.unsigned_abs() as usize) % pool.len()] } else { *q }).collect();
-            c12::Case { g: s.a, queries, xf, noise: 0, mixed: false, trusted: true }
+            c12::Case { g: s.a, queries, xf, noise: 0, mixed: false, sliver: None, trusted: true }
         }))
     }
 }
